@@ -1,13 +1,1027 @@
 package main
 
-// replayObligation: model -> concrete run of the real function. Implemented per data structure (reifiers); until a reifier exists for the
-// function, the refutation is reported without a concrete input.
-func replayObligation(env *Env, o *Obligation, rp *replayRecord) (bool, string) {
-	return false, "no reifier for this function yet: refutation reported from the solver model only"
+import (
+	"context"
+	"encoding/json"
+	"fmt"
+	"go/types"
+	"os"
+	"os/exec"
+	"path/filepath"
+	"sort"
+	"strings"
+	"time"
+
+	"golang.org/x/tools/go/ssa"
+)
+
+// Replay: a refuted obligation (solver answered sat) is turned into a run of the real function.
+//
+//  1. The solver's model is queried term by term ((get-value ...), values pinned as they are read) for the function's parameters and,
+//     through the entry-state heap arrays, for the objects reachable from them.
+//  2. A Go test is generated *inside the function's package* that rebuilds those inputs (reflect + unsafe for unexported fields and
+//     atomics), re-checks the contract's preconditions on them, calls the real function under recover, and evaluates the violated
+//     postcondition (translated from the contract expression) on the real results. For nil/bounds/div obligations the observation is
+//     the run-time panic itself.
+//  3. The test is run against /repo with `go test -overlay` (nothing is written into the repository).
+//
+// The replay confirms a violation only when the real run misbehaves; whenever an input cannot be rebuilt (ghost state, interface or
+// function values, channels, quantified contracts) the answer is "no failing input found" and the VIOLATION line says so.
+
+type reifyAbort struct{ msg string }
+
+type reifier struct {
+	env     *Env
+	vc      *VC
+	o       *Obligation
+	base    string // query text without the final (check-sat)
+	backend solverSpec
+	cache   map[string]string
+	pins    []string
+	objs    map[string]string
+	setup   []string
+	imports map[string]bool
+	pkg     *types.Package
+	n       int
+	tpVals  map[string]int // model value of an uninterpreted element sort -> int
+	work    string
+	queries int
 }
 
-// runReplayTest runs a generated in-package test against /repo without writing to it (go test -overlay). The test must fail
-// (exit status != 0 with "REPLAY-CONFIRMED" in its output) when the failing input is confirmed.
-func runReplayTest(pkgDir, src string) (bool, string) {
-	return false, "replay tests are not generated by this build"
+func (r *reifier) abort(f string, a ...interface{}) { panic(reifyAbort{fmt.Sprintf(f, a...)}) }
+
+func replayObligation(env *Env, o *Obligation, rp *replayRecord) (confirmed bool, detail string) {
+	defer func() {
+		if x := recover(); x != nil {
+			if a, ok := x.(reifyAbort); ok {
+				confirmed, detail = false, "no concrete input built: "+a.msg
+				return
+			}
+			if u, ok := x.(unsupported); ok {
+				confirmed, detail = false, "no concrete input built: "+u.msg
+				return
+			}
+			panic(x)
+		}
+	}()
+	if o.vc == nil {
+		return false, "no verification context kept for this obligation"
+	}
+	vc := o.vc
+	fn := vc.fn
+	if fn == nil || fn.Parent() != nil {
+		return false, "closures are not replayed (their captured variables cannot be rebuilt)"
+	}
+	if strings.Contains(o.Name, "@in:") && o.Kind == "post" {
+		return false, "obligation inside an inlined callee"
+	}
+	switch o.Kind {
+	case "post", "nil", "bounds", "div":
+	default:
+		return false, "obligation kind " + o.Kind + " has no run-time observation (only post/nil/bounds/div are replayed)"
+	}
+	work, _ := os.MkdirTemp("", "vq-replay-")
+	defer os.RemoveAll(work)
+	var be solverSpec
+	for _, s := range solvers {
+		if s.name == o.Backend {
+			be = s
+		}
+	}
+	if be.name == "" {
+		be = solvers[0]
+	}
+	q := vc.buildQuery(o, vc.heap0All(), "", true)
+	q = strings.TrimSuffix(strings.TrimSpace(q), "(check-sat)")
+	r := &reifier{env: env, vc: vc, o: o, base: q, backend: be, cache: map[string]string{}, objs: map[string]string{}, imports: map[string]bool{"testing": true, "fmt": true, "reflect": true, "unsafe": true, "math/big": true},
+		pkg: fn.Pkg.Pkg, tpVals: map[string]int{}, work: work}
+	src := r.generate()
+	rp.ReplayTest = src
+	rel, _ := filepath.Rel(env.w.RepoDir, filepath.Dir(env.w.Prog.Fset.Position(fn.Pos()).Filename))
+	rp.ReplayPkg = rel
+	ok, out := runReplayTestIn(env.w.RepoDir, rel, src)
+	return ok, out
 }
+
+// ---------------------------------------------------------------- model access
+
+func (r *reifier) ev(t Term) string {
+	if v, ok := r.cache[t.S]; ok {
+		return v
+	}
+	if isLiteral(t.S) {
+		return t.S
+	}
+	r.queries++
+	if r.queries > 400 {
+		r.abort("input too large (more than 400 model queries)")
+	}
+	file := filepath.Join(r.work, fmt.Sprintf("m%04d.smt2", r.queries))
+	text := r.base + "\n" + strings.Join(r.pins, "\n") + "\n(check-sat)\n(get-value (" + t.S + "))\n"
+	os.WriteFile(file, []byte(text), 0o644)
+	res := runSolver(context.Background(), r.backend, file, 20)
+	lines := strings.SplitN(strings.TrimSpace(res.out), "\n", 2)
+	if len(lines) < 2 || strings.TrimSpace(lines[0]) != "sat" {
+		r.abort("model query for %s did not return sat (%s)", t.S, firstLines(res.out, 2))
+	}
+	sx, _ := parseSexpr(lines[1])
+	// ((term value))
+	if sx == nil || len(sx.list) != 1 || len(sx.list[0].list) != 2 {
+		r.abort("cannot parse get-value answer %q", lines[1])
+	}
+	v := sexprValue(sx.list[0].list[1])
+	r.cache[t.S] = v
+	if t.Sort == SInt || t.Sort == SBool {
+		r.pins = append(r.pins, "(assert (= "+t.S+" "+smtLit(v, t.Sort)+"))")
+	}
+	return v
+}
+
+func isLiteral(s string) bool {
+	if s == "true" || s == "false" {
+		return true
+	}
+	if s == "" {
+		return false
+	}
+	for _, c := range s {
+		if c < '0' || c > '9' {
+			return false
+		}
+	}
+	return true
+}
+
+func smtLit(v, sort string) string {
+	if sort == SInt && strings.HasPrefix(v, "-") {
+		return "(- " + v[1:] + ")"
+	}
+	return v
+}
+
+type sexpr struct {
+	atom string
+	list []*sexpr
+}
+
+func parseSexpr(s string) (*sexpr, string) {
+	s = strings.TrimSpace(s)
+	if s == "" {
+		return nil, ""
+	}
+	if s[0] == '(' {
+		out := &sexpr{list: []*sexpr{}}
+		s = s[1:]
+		for {
+			s = strings.TrimSpace(s)
+			if s == "" {
+				return out, ""
+			}
+			if s[0] == ')' {
+				return out, s[1:]
+			}
+			var c *sexpr
+			c, s = parseSexpr(s)
+			if c == nil {
+				return out, s
+			}
+			out.list = append(out.list, c)
+		}
+	}
+	if s[0] == '|' {
+		j := strings.Index(s[1:], "|")
+		return &sexpr{atom: s[:j+2]}, s[j+2:]
+	}
+	i := 0
+	for i < len(s) && !strings.ContainsRune(" \t\n()", rune(s[i])) {
+		i++
+	}
+	return &sexpr{atom: s[:i]}, s[i:]
+}
+
+// sexprValue: canonical text of a scalar model value: integers as decimal with sign, booleans, reals as a/b, other atoms verbatim.
+func sexprValue(x *sexpr) string {
+	if x.list == nil {
+		return x.atom
+	}
+	if len(x.list) == 2 && x.list[0].atom == "-" {
+		return "-" + sexprValue(x.list[1])
+	}
+	if len(x.list) == 3 && x.list[0].atom == "/" {
+		return sexprValue(x.list[1]) + "/" + sexprValue(x.list[2])
+	}
+	var parts []string
+	for _, c := range x.list {
+		parts = append(parts, sexprValue(c))
+	}
+	return "(" + strings.Join(parts, " ") + ")"
+}
+
+// ---------------------------------------------------------------- Go types with type parameters instantiated by int
+
+func (r *reifier) goType(t types.Type) string {
+	t = types.Unalias(t)
+	switch x := t.(type) {
+	case *types.TypeParam:
+		if it, ok := x.Constraint().Underlying().(*types.Interface); ok && !types.Satisfies(types.Typ[types.Int], it) {
+			r.abort("type parameter %s cannot be instantiated with int", x)
+		}
+		return "int"
+	case *types.Basic:
+		if x.Kind() == types.UnsafePointer {
+			r.imports["unsafe"] = true
+			return "unsafe.Pointer"
+		}
+		return x.Name()
+	case *types.Pointer:
+		return "*" + r.goType(x.Elem())
+	case *types.Slice:
+		return "[]" + r.goType(x.Elem())
+	case *types.Array:
+		return fmt.Sprintf("[%d]%s", x.Len(), r.goType(x.Elem()))
+	case *types.Named:
+		name := x.Obj().Name()
+		if p := x.Obj().Pkg(); p != nil && p != r.pkg {
+			if !x.Obj().Exported() {
+				r.abort("unexported type %s of another package", x)
+			}
+			r.imports[p.Path()] = true
+			name = p.Name() + "." + name
+		}
+		if ta := x.TypeArgs(); ta != nil && ta.Len() > 0 {
+			var as []string
+			for i := 0; i < ta.Len(); i++ {
+				as = append(as, r.goType(ta.At(i)))
+			}
+			name += "[" + strings.Join(as, ", ") + "]"
+		} else if tp := x.TypeParams(); tp != nil && tp.Len() > 0 {
+			var as []string
+			for i := 0; i < tp.Len(); i++ {
+				as = append(as, r.goType(tp.At(i)))
+			}
+			name += "[" + strings.Join(as, ", ") + "]"
+		}
+		return name
+	case *types.Interface:
+		if x.NumMethods() == 0 && x.NumEmbeddeds() == 0 {
+			return "any"
+		}
+	case *types.Signature, *types.Chan, *types.Map:
+		return types.TypeString(t, func(p *types.Package) string {
+			if p == r.pkg {
+				return ""
+			}
+			r.imports[p.Path()] = true
+			return p.Name()
+		})
+	}
+	r.abort("type %s is not supported by the replay", t)
+	return ""
+}
+
+func (r *reifier) fresh(prefix string) string {
+	r.n++
+	return fmt.Sprintf("%s%d", prefix, r.n)
+}
+
+// scalarGo: Go literal (as an expression of type gt) for the model value of scalar term tm of Go type t.
+func (r *reifier) scalarGo(tm Term, t types.Type) (code string, isNilLike bool) {
+	t = types.Unalias(t)
+	if tp, ok := t.(*types.TypeParam); ok {
+		_ = tp
+		v := r.ev(tm)
+		if tm.Sort == SInt || tm.Sort == SBool {
+			return v, false
+		}
+		return fmt.Sprint(r.tpValue(tm.Sort, v)), false
+	}
+	if n, ok := t.(*types.Named); ok {
+		if _, ok := specialScalarSort(n); ok {
+			switch qualifiedName(n) {
+			case "time.Duration":
+				r.imports["time"] = true
+				return "time.Duration(" + r.ev(tm) + ")", false
+			case "sync.WaitGroup", "time.Time", "sync/atomic.Value":
+				return "", true // left at its zero value
+			}
+			return r.ev(tm), false // atomic integer / bool: stored through Store by vqSet
+		}
+	}
+	switch u := t.Underlying().(type) {
+	case *types.Basic:
+		v := r.ev(tm)
+		switch {
+		case u.Info()&types.IsBoolean != 0:
+			return v, false
+		case u.Info()&types.IsInteger != 0:
+			return r.goType(t) + "(" + v + ")", false
+		case u.Info()&types.IsString != 0:
+			return fmt.Sprintf("%q", r.strValue(tm, v)), false
+		case u.Info()&types.IsFloat != 0:
+			if strings.Contains(v, "/") {
+				return r.goType(t) + "(" + strings.Replace(v, "/", ".0/", 1) + ".0)", false
+			}
+			return r.goType(t) + "(" + v + ")", false
+		}
+	case *types.Pointer:
+		id := r.ev(tm)
+		if id == "0" {
+			return "nil", true
+		}
+		return r.object(u.Elem(), id), false
+	case *types.Interface, *types.Signature, *types.Chan, *types.Map:
+		v := r.ev(tm)
+		if v == "0" {
+			return "nil", true
+		}
+		r.abort("the failing input needs a non-nil %s value, which the replay cannot build", t)
+	}
+	r.abort("scalar of type %s is not supported by the replay", t)
+	return "", false
+}
+
+func (r *reifier) tpValue(sort, v string) int {
+	key := sort + "=" + v
+	if n, ok := r.tpVals[key]; ok {
+		return n
+	}
+	// the zero value of the sort maps to 0, every other abstract value to a distinct positive int
+	if z, ok := r.vc.strLits["zero."+sort]; ok && z == sort {
+		zv := r.ev(Term{smtIdent("zero." + sort), sort})
+		if zv == v {
+			r.tpVals[key] = 0
+			return 0
+		}
+	}
+	n := 1
+	for _, x := range r.tpVals {
+		if x >= n {
+			n = x + 1
+		}
+	}
+	r.tpVals[key] = n
+	return n
+}
+
+func (r *reifier) strValue(tm Term, v string) string {
+	for name, kind := range r.vc.strLits {
+		if strings.HasPrefix(kind, "Str:") {
+			lit := strings.TrimPrefix(kind, "Str:")
+			if r.ev(Term{smtIdent(name), "Str"}) == v {
+				return lit
+			}
+		}
+	}
+	return "s" + strings.Map(func(c rune) rune {
+		if c >= '0' && c <= '9' {
+			return c
+		}
+		return -1
+	}, v)
+}
+
+func (r *reifier) heap0(key string) Term {
+	if t, ok := r.vc.heap0All()[key]; ok {
+		return t
+	}
+	return Term{}
+}
+
+// object: a variable holding *T for the entry-state object with reference id.
+func (r *reifier) object(elem types.Type, id string) string {
+	elem = types.Unalias(elem)
+	key := typeRepr(elem) + "#" + id
+	if v, ok := r.objs[key]; ok {
+		return v
+	}
+	if len(r.objs) > 40 {
+		r.abort("input too large (more than 40 objects)")
+	}
+	v := r.fresh("o")
+	r.objs[key] = v
+	r.setup = append(r.setup, fmt.Sprintf("%s := new(%s)", v, r.goType(elem)))
+	idT := Term{id, SInt}
+	if strings.HasPrefix(id, "-") {
+		idT = Term{"(- " + id[1:] + ")", SInt}
+	}
+	switch classify(elem) {
+	case kStruct:
+		if refEmbeddedRoot(elem) {
+			r.abort("objects of type %s (self-referential sentinel) are not rebuilt by the replay", elem)
+		}
+		r.fillStruct(v, rootName(elem), elem, "", idT)
+	case kScalar:
+		h := r.heap0("C:" + typeRepr(elem))
+		if h.S != "" {
+			code, skip := r.scalarGo(tSelect(h, idT), elem)
+			if !skip {
+				r.setup = append(r.setup, fmt.Sprintf("*%s = %s", v, code))
+			}
+		}
+	default:
+		r.abort("pointer to %s is not supported by the replay", elem)
+	}
+	return v
+}
+
+func refEmbeddedRoot(t types.Type) bool {
+	if n, ok := types.Unalias(t).(*types.Named); ok {
+		return qualifiedName(n) == "linkedlist.List" || qualifiedName(n) == "linkedlist.Node"
+	}
+	return false
+}
+
+func (r *reifier) fillStruct(objVar, root string, t types.Type, prefix string, id Term) {
+	st, ok := resolveTP(t).Underlying().(*types.Struct)
+	if !ok {
+		return
+	}
+	for i := 0; i < st.NumFields(); i++ {
+		f := st.Field(i)
+		path := joinPath(prefix, f.Name())
+		ft := f.Type()
+		switch classify(ft) {
+		case kLock, kOpaque:
+			continue
+		case kStruct:
+			r.fillStruct(objVar, root, ft, path, id)
+		case kSlice:
+			harr, hlen, hcap := r.heap0("F:"+root+"."+path+".#arr"), r.heap0("F:"+root+"."+path+".#len"), r.heap0("F:"+root+"."+path+".#cap")
+			if harr.S == "" || hlen.S == "" {
+				continue // never read on this path
+			}
+			capT := Term{}
+			if hcap.S != "" {
+				capT = tSelect(hcap, id)
+			}
+			code := r.slice(ft, tSelect(harr, id), tSelect(hlen, id), capT)
+			r.setup = append(r.setup, fmt.Sprintf("vqSet(%s, %q, %s)", objVar, path, code))
+		case kScalar:
+			h := r.heap0("F:" + root + "." + path)
+			if h.S == "" {
+				continue // the path never touched this field: any value will do, keep the zero value
+			}
+			code, skip := r.scalarGo(tSelect(h, id), ft)
+			if skip {
+				continue
+			}
+			r.setup = append(r.setup, fmt.Sprintf("vqSet(%s, %q, %s)", objVar, path, code))
+		}
+	}
+}
+
+// slice: expression of the slice type t for the header (arr, len, cap) in the entry heap.
+func (r *reifier) slice(t types.Type, arr, ln, cp Term) string {
+	el := sliceElem(t)
+	a := r.ev(arr)
+	n := r.ev(ln)
+	var nn, cc int
+	fmt.Sscanf(n, "%d", &nn)
+	cc = nn
+	if cp.S != "" {
+		fmt.Sscanf(r.ev(cp), "%d", &cc)
+	}
+	if a == "0" && nn == 0 {
+		return r.goType(t) + "(nil)"
+	}
+	if nn < 0 || nn > 64 || cc < nn || cc > 1<<16 {
+		r.abort("slice of length %d / capacity %d is outside what the replay rebuilds (len <= 64, cap <= 65536)", nn, cc)
+	}
+	key := "slice:" + typeRepr(el) + "#" + a
+	if v, ok := r.objs[key]; ok {
+		return fmt.Sprintf("%s[:%d:%d]", v, nn, cc)
+	}
+	v := r.fresh("s")
+	r.objs[key] = v
+	r.setup = append(r.setup, fmt.Sprintf("%s := make(%s, %d, %d)", v, r.goType(t), cc, cc))
+	aT := Term{a, SInt}
+	switch classify(el) {
+	case kScalar:
+		h := r.heap0("E:" + typeRepr(el))
+		if h.S != "" {
+			for i := 0; i < nn; i++ {
+				code, skip := r.scalarGo(tSelect(tSelect(h, aT), tInt(int64(i))), el)
+				if !skip && code != "0" && code != "nil" {
+					r.setup = append(r.setup, fmt.Sprintf("%s[%d] = %s", v, i, code))
+				}
+			}
+		}
+	default:
+		r.abort("slice of %s is not supported by the replay", el)
+	}
+	return fmt.Sprintf("%s[:%d:%d]", v, nn, cc)
+}
+
+// argument: Go expression for a parameter value.
+func (r *reifier) argument(v Val, t types.Type) string {
+	switch x := v.(type) {
+	case TV:
+		code, _ := r.scalarGo(x.T, t)
+		return code
+	case SliceV:
+		return r.slice(t, x.Arr, x.Len, x.Cap)
+	case StructV:
+		r.abort("struct-valued parameter")
+	}
+	r.abort("parameter of type %s is not supported by the replay", t)
+	return ""
+}
+
+// ---------------------------------------------------------------- contract expression -> Go
+
+type goExpr struct {
+	code string
+	cat  string // int | bool | any
+	typ  types.Type
+}
+
+type trEnv struct {
+	r     *reifier
+	names map[string]goExpr
+	olds  *[]string
+	inOld bool
+	pre   bool // translating a precondition: old() is the identity
+}
+
+func catOf(t types.Type) string {
+	t = types.Unalias(t)
+	if _, ok := t.(*types.TypeParam); ok {
+		return "int"
+	}
+	if n, ok := t.(*types.Named); ok {
+		if s, ok := specialScalarSort(n); ok {
+			if s == SBool {
+				return "bool"
+			}
+			return "int"
+		}
+	}
+	if b, ok := t.Underlying().(*types.Basic); ok {
+		if b.Info()&types.IsInteger != 0 {
+			return "int"
+		}
+		if b.Info()&types.IsBoolean != 0 {
+			return "bool"
+		}
+	}
+	return "any"
+}
+
+func wrap(code string, t types.Type) goExpr {
+	switch catOf(t) {
+	case "int":
+		return goExpr{"vqBig(" + code + ")", "int", t}
+	case "bool":
+		return goExpr{"vqBool(" + code + ")", "bool", t}
+	}
+	return goExpr{"any(" + code + ")", "any", t}
+}
+
+var mathConsts = map[string]string{"MaxInt": "9223372036854775807", "MinInt": "-9223372036854775808", "MaxInt64": "9223372036854775807", "MaxUint64": "18446744073709551615",
+	"MaxUint32": "4294967295", "MaxInt32": "2147483647", "MaxUint16": "65535", "MaxUint8": "255"}
+
+func (te *trEnv) tr(e *CExpr) goExpr {
+	r := te.r
+	switch e.Kind {
+	case "int":
+		return goExpr{"vqLit(\"" + e.Lit + "\")", "int", types.Typ[types.Int]}
+	case "ident":
+		if g, ok := te.names[e.Name]; ok {
+			return g
+		}
+		switch e.Name {
+		case "nil":
+			return goExpr{"nil", "nil", nil}
+		case "true", "false":
+			return goExpr{e.Name, "bool", types.Typ[types.Bool]}
+		}
+		if v, ok := mathConsts[e.Name]; ok {
+			return goExpr{"vqLit(\"" + v + "\")", "int", types.Typ[types.Int]}
+		}
+		if obj := r.pkg.Scope().Lookup(e.Name); obj != nil {
+			switch obj.(type) {
+			case *types.Const, *types.Var:
+				return wrap(e.Name, obj.Type())
+			}
+		}
+		r.abort("contract name %q has no run-time counterpart", e.Name)
+	case "sel":
+		b := te.tr(e.Args[0])
+		if b.typ == nil {
+			r.abort("selection on untyped expression %s", e.Args[0])
+		}
+		bt := types.Unalias(b.typ)
+		if p, ok := bt.Underlying().(*types.Pointer); ok {
+			bt = p.Elem()
+		}
+		st, ok := resolveTP(bt).Underlying().(*types.Struct)
+		if !ok {
+			r.abort("selection %s on non-struct", e)
+		}
+		for i := 0; i < st.NumFields(); i++ {
+			if st.Field(i).Name() == e.Name {
+				return wrap(fmt.Sprintf("vqGet(%s, %q)", b.code, e.Name), st.Field(i).Type())
+			}
+		}
+		r.abort("no field %s in %s", e.Name, bt)
+	case "old":
+		if te.pre {
+			return te.tr(e.Args[0])
+		}
+		sub := *te
+		sub.inOld = true
+		g := sub.tr(e.Args[0])
+		v := r.fresh("old")
+		*te.olds = append(*te.olds, fmt.Sprintf("%s := %s", v, g.code))
+		return goExpr{v, g.cat, g.typ}
+	case "un":
+		a := te.tr(e.Args[0])
+		switch e.Op {
+		case "!":
+			return goExpr{"!(" + a.code + ")", "bool", a.typ}
+		case "-":
+			return goExpr{"vqNeg(" + a.code + ")", "int", a.typ}
+		}
+	case "ite":
+		c, a, b := te.tr(e.Args[0]), te.tr(e.Args[1]), te.tr(e.Args[2])
+		if a.cat == "int" && b.cat == "int" {
+			return goExpr{fmt.Sprintf("vqIte(%s, %s, %s)", c.code, a.code, b.code), "int", a.typ}
+		}
+		r.abort("conditional expression of kind %s", a.cat)
+	case "call":
+		switch e.Name {
+		case "len", "cap":
+			a := te.tr(e.Args[0])
+			return goExpr{fmt.Sprintf("vq%s(%s)", strings.Title(e.Name), a.code), "int", types.Typ[types.Int]}
+		}
+		if cp := r.vc.cs.Preds[e.Name]; cp != nil {
+			if len(cp.Formals) != len(e.Args) {
+				r.abort("pred %s arity", e.Name)
+			}
+			sub := &trEnv{r: r, names: map[string]goExpr{}, olds: te.olds, inOld: te.inOld, pre: te.pre}
+			for k, v := range te.names {
+				sub.names[k] = v
+			}
+			for i, f := range cp.Formals {
+				sub.names[f.Name] = te.tr(e.Args[i])
+			}
+			body, err := cp.Body.expr()
+			if err != nil {
+				r.abort("%v", err)
+			}
+			return sub.tr(body)
+		}
+		r.abort("contract function %s has no run-time counterpart", e.Name)
+	case "index":
+		a, i := te.tr(e.Args[0]), te.tr(e.Args[1])
+		if a.typ == nil {
+			r.abort("index on untyped expression")
+		}
+		el := sliceElem(a.typ)
+		if el == nil {
+			r.abort("index on non-slice %s", a.typ)
+		}
+		return wrap(fmt.Sprintf("vqIndex(%s, %s)", a.code, i.code), el)
+	case "bin":
+		if e.Op == "==>" {
+			a, b := te.tr(e.Args[0]), te.tr(e.Args[1])
+			return goExpr{"(!(" + a.code + ") || (" + b.code + "))", "bool", nil}
+		}
+		a, b := te.tr(e.Args[0]), te.tr(e.Args[1])
+		switch e.Op {
+		case "&&", "||":
+			return goExpr{"((" + a.code + ") " + e.Op + " (" + b.code + "))", "bool", nil}
+		case "+", "-", "*", "/", "%":
+			if a.cat != "int" || b.cat != "int" {
+				r.abort("arithmetic on non-integers in %s", e)
+			}
+			fn := map[string]string{"+": "vqAdd", "-": "vqSub", "*": "vqMul", "/": "vqQuo", "%": "vqRem"}[e.Op]
+			return goExpr{fmt.Sprintf("%s(%s, %s)", fn, a.code, b.code), "int", a.typ}
+		case "<", "<=", ">", ">=":
+			if a.cat != "int" || b.cat != "int" {
+				r.abort("ordering on non-integers in %s", e)
+			}
+			return goExpr{fmt.Sprintf("(%s.Cmp(%s) %s 0)", a.code, b.code, e.Op), "bool", nil}
+		case "==", "!=":
+			var c string
+			switch {
+			case a.cat == "int" && b.cat == "int":
+				c = fmt.Sprintf("(%s.Cmp(%s) == 0)", a.code, b.code)
+			case a.cat == "bool" && b.cat == "bool":
+				c = fmt.Sprintf("((%s) == (%s))", a.code, b.code)
+			case a.cat == "nil":
+				c = fmt.Sprintf("vqIsNil(%s)", b.code)
+			case b.cat == "nil":
+				c = fmt.Sprintf("vqIsNil(%s)", a.code)
+			case a.cat == "any" && b.cat == "any":
+				c = fmt.Sprintf("vqSame(%s, %s)", a.code, b.code)
+			default:
+				r.abort("comparison of %s with %s in %s", a.cat, b.cat, e)
+			}
+			if e.Op == "!=" {
+				c = "!" + c
+			}
+			return goExpr{c, "bool", nil}
+		}
+	}
+	r.abort("contract expression %s has no run-time counterpart (ghost state, quantifier or specification function)", e)
+	return goExpr{}
+}
+
+// ---------------------------------------------------------------- test generation
+
+func (r *reifier) generate() string {
+	vc, fn, o := r.vc, r.vc.fn, r.o
+	if len(vc.rootParams) != len(fn.Params) {
+		r.abort("parameter values were not recorded")
+	}
+	names := map[string]goExpr{}
+	var args []string
+	var inputDesc []string
+	for i, p := range fn.Params {
+		code := r.argument(vc.rootParams[i], p.Type())
+		v := "a_" + p.Name()
+		r.setup = append(r.setup, fmt.Sprintf("var %s %s = %s", v, r.goType(p.Type()), code), "_ = "+v)
+		names[p.Name()] = wrap(v, p.Type())
+		args = append(args, v)
+		inputDesc = append(inputDesc, p.Name()+"="+code)
+	}
+	// preconditions on the concrete input
+	var olds []string
+	var pre []string
+	if vc.fc != nil {
+		for _, c := range vc.fc.clauses("requires") {
+			if c.Mode != "" && c.Mode != vc.mode {
+				continue
+			}
+			e, err := c.expr()
+			if err != nil {
+				r.abort("%v", err)
+			}
+			te := &trEnv{r: r, names: names, olds: &olds, pre: true}
+			g := te.tr(e)
+			pre = append(pre, fmt.Sprintf("if !(%s) { fmt.Println(%q); return }", g.code, "REPLAY-PRECONDITION-NOT-MET: "+c.Text))
+		}
+	}
+	// call
+	res := fn.Signature.Results()
+	var rvars []string
+	var rdecl []string
+	for i := 0; i < res.Len(); i++ {
+		v := fmt.Sprintf("r%d", i)
+		rvars = append(rvars, v)
+		rdecl = append(rdecl, fmt.Sprintf("var %s %s", v, r.goType(res.At(i).Type())), "_ = "+v)
+		g := wrap(v, res.At(i).Type())
+		names[fmt.Sprintf("result%d", i)] = g
+		if i == 0 {
+			names["result"] = g
+		}
+	}
+	callee := fn.Name()
+	callArgs := args
+	if fn.Signature.Recv() != nil {
+		callee = args[0] + "." + fn.Name()
+		callArgs = args[1:]
+	} else if tps := fn.TypeParams(); tps != nil && tps.Len() > 0 {
+		var as []string
+		for i := 0; i < tps.Len(); i++ {
+			as = append(as, r.goType(tps.At(i)))
+		}
+		callee += "[" + strings.Join(as, ", ") + "]"
+	}
+	call := callee + "(" + strings.Join(callArgs, ", ") + ")"
+	if fn.Signature.Variadic() {
+		call = callee + "(" + strings.Join(callArgs, ", ") + "...)"
+	}
+	if len(rvars) > 0 {
+		call = strings.Join(rvars, ", ") + " = " + call
+	}
+	// the violated clause
+	if len(r.objs) > 0 {
+		inputDesc = append(inputDesc, "where "+strings.Join(r.setupSummary(), "; "))
+	}
+	var check string
+	switch o.Kind {
+	case "post":
+		label := strings.TrimPrefix(o.Name[strings.Index(o.Name, "#post:")+6:], "")
+		var clause *Clause
+		for i, c := range vc.fc.clauses("ensures") {
+			l := clauseLabel(c, i)
+			if label == l || strings.HasPrefix(label, l+".") {
+				clause = c
+			}
+		}
+		if clause == nil {
+			r.abort("ensures clause %q not found", label)
+		}
+		e, err := clause.expr()
+		if err != nil {
+			r.abort("%v", err)
+		}
+		te := &trEnv{r: r, names: names, olds: &olds}
+		g := te.tr(e)
+		check = fmt.Sprintf("if panicked != nil { fmt.Println(\"REPLAY-NOT-CONFIRMED: the call panicked:\", panicked); return }\n\tif !(%s) { fmt.Printf(\"REPLAY-CONFIRMED: postcondition [%%s] is false after the real call; inputs: %%s; results: %%v\\n\", %q, %q, []any{%s}); t.FailNow() }",
+			g.code, clause.Text, strings.Join(inputDesc, ", "), strings.Join(rvars, ", "))
+	default:
+		check = fmt.Sprintf("if panicked != nil { fmt.Printf(\"REPLAY-CONFIRMED: the real call panicked: %%v; inputs: %%s\\n\", panicked, %q); t.FailNow() }", strings.Join(inputDesc, ", "))
+	}
+	var b strings.Builder
+	b.WriteString("// Code generated by vq (replay of " + o.Name + "). DO NOT EDIT.\n")
+	b.WriteString("package " + r.pkg.Name() + "\n\nimport (\n")
+	for _, p := range sortedKeysBool(r.imports) {
+		b.WriteString(fmt.Sprintf("\t%q\n", p))
+	}
+	b.WriteString(")\n\n")
+	b.WriteString("func TestVQReplay(t *testing.T) {\n")
+	for _, s := range r.setup {
+		b.WriteString("\t" + s + "\n")
+	}
+	for _, s := range pre {
+		b.WriteString("\t" + s + "\n")
+	}
+	for _, s := range olds {
+		b.WriteString("\t" + s + "\n\t_ = " + strings.SplitN(s, " ", 2)[0] + "\n")
+	}
+	for _, s := range rdecl {
+		b.WriteString("\t" + s + "\n")
+	}
+	b.WriteString("\tpanicked := vqCall(func() { " + call + " })\n")
+	b.WriteString("\t" + check + "\n")
+	b.WriteString("\tfmt.Println(\"REPLAY-NOT-CONFIRMED: the real run satisfies the clause on this input\")\n}\n\n")
+	b.WriteString(replayHelpers)
+	return b.String()
+}
+
+// setupSummary: the object-construction statements, as the description of the failing input.
+func (r *reifier) setupSummary() []string {
+	var out []string
+	for _, s := range r.setup {
+		if strings.HasPrefix(s, "_ = ") || strings.HasPrefix(s, "var a_") {
+			continue
+		}
+		out = append(out, s)
+		if len(out) >= 24 {
+			out = append(out, "...")
+			break
+		}
+	}
+	return out
+}
+
+func sortedKeysBool(m map[string]bool) []string {
+	var ks []string
+	for k := range m {
+		ks = append(ks, k)
+	}
+	sort.Strings(ks)
+	return ks
+}
+
+const replayHelpers = `
+var _ = unsafe.Pointer(nil)
+
+func vqCall(f func()) (p any) {
+	defer func() { p = recover() }()
+	f()
+	return nil
+}
+
+func vqField(v reflect.Value, path string) reflect.Value {
+	for v.Kind() == reflect.Ptr || v.Kind() == reflect.Interface {
+		v = v.Elem()
+	}
+	start := 0
+	for i := 0; i <= len(path); i++ {
+		if i == len(path) || path[i] == '.' {
+			name := path[start:i]
+			start = i + 1
+			for v.Kind() == reflect.Ptr || v.Kind() == reflect.Interface {
+				v = v.Elem()
+			}
+			f := v.FieldByName(name)
+			if !f.IsValid() {
+				panic("vq replay: no field " + name)
+			}
+			v = reflect.NewAt(f.Type(), unsafe.Pointer(f.UnsafeAddr())).Elem()
+		}
+	}
+	return v
+}
+
+func vqSet(obj any, path string, val any) {
+	f := vqField(reflect.ValueOf(obj), path)
+	if m := f.Addr().MethodByName("Store"); m.IsValid() && f.Kind() == reflect.Struct {
+		m.Call([]reflect.Value{reflect.ValueOf(val).Convert(m.Type().In(0))})
+		return
+	}
+	if val == nil {
+		f.Set(reflect.Zero(f.Type()))
+		return
+	}
+	f.Set(reflect.ValueOf(val).Convert(f.Type()))
+}
+
+func vqGet(obj any, name string) any {
+	if vqIsNil(obj) {
+		panic("vq replay: field of nil")
+	}
+	f := vqField(reflect.ValueOf(obj), name)
+	if f.Kind() == reflect.Struct {
+		if m := f.Addr().MethodByName("Load"); m.IsValid() {
+			return m.Call(nil)[0].Interface()
+		}
+		return f.Addr().Interface()
+	}
+	return f.Interface()
+}
+
+func vqBig(x any) *big.Int {
+	if b, ok := x.(*big.Int); ok {
+		return b
+	}
+	v := reflect.ValueOf(x)
+	switch v.Kind() {
+	case reflect.Int, reflect.Int8, reflect.Int16, reflect.Int32, reflect.Int64:
+		return big.NewInt(v.Int())
+	case reflect.Uint, reflect.Uint8, reflect.Uint16, reflect.Uint32, reflect.Uint64, reflect.Uintptr:
+		return new(big.Int).SetUint64(v.Uint())
+	}
+	panic(fmt.Sprintf("vq replay: %T is not an integer", x))
+}
+
+func vqBool(x any) bool { return reflect.ValueOf(x).Bool() }
+
+func vqLit(s string) *big.Int { b, _ := new(big.Int).SetString(s, 10); return b }
+func vqAdd(a, b *big.Int) *big.Int { return new(big.Int).Add(a, b) }
+func vqSub(a, b *big.Int) *big.Int { return new(big.Int).Sub(a, b) }
+func vqMul(a, b *big.Int) *big.Int { return new(big.Int).Mul(a, b) }
+func vqQuo(a, b *big.Int) *big.Int { return new(big.Int).Quo(a, b) }
+func vqRem(a, b *big.Int) *big.Int { return new(big.Int).Rem(a, b) }
+func vqNeg(a *big.Int) *big.Int { return new(big.Int).Neg(a) }
+func vqIte(c bool, a, b *big.Int) *big.Int {
+	if c {
+		return a
+	}
+	return b
+}
+func vqLen(x any) *big.Int { return big.NewInt(int64(reflect.ValueOf(x).Len())) }
+func vqCap(x any) *big.Int { return big.NewInt(int64(reflect.ValueOf(x).Cap())) }
+func vqIndex(x any, i *big.Int) any { return reflect.ValueOf(x).Index(int(i.Int64())).Interface() }
+func vqIsNil(x any) bool {
+	if x == nil {
+		return true
+	}
+	v := reflect.ValueOf(x)
+	switch v.Kind() {
+	case reflect.Ptr, reflect.Slice, reflect.Map, reflect.Chan, reflect.Func, reflect.Interface:
+		return v.IsNil()
+	}
+	return false
+}
+func vqSame(a, b any) bool {
+	if vqIsNil(a) || vqIsNil(b) {
+		return vqIsNil(a) && vqIsNil(b)
+	}
+	return a == b
+}
+`
+
+// runReplayTestIn runs the generated in-package test against the repository without writing to it (go test -overlay).
+func runReplayTestIn(repoDir, relPkg, src string) (bool, string) {
+	work, _ := os.MkdirTemp("", "vq-replay-run-")
+	defer os.RemoveAll(work)
+	testFile := filepath.Join(work, "zz_vq_replay_test.go")
+	os.WriteFile(testFile, []byte(src), 0o644)
+	target := filepath.Join(repoDir, relPkg, "zz_vq_replay_test.go")
+	ov, _ := json.Marshal(map[string]interface{}{"Replace": map[string]string{target: testFile}})
+	ovFile := filepath.Join(work, "overlay.json")
+	os.WriteFile(ovFile, ov, 0o644)
+	ctx, cancel := context.WithTimeout(context.Background(), 180*time.Second)
+	defer cancel()
+	cmd := exec.CommandContext(ctx, "go", "test", "-overlay", ovFile, "-vet=off", "-count=1", "-timeout", "60s", "-run", "^TestVQReplay$", "./"+relPkg)
+	cmd.Dir = repoDir
+	cmd.Env = append(os.Environ(), "GOFLAGS=-mod=mod", "GOPROXY=off")
+	out, _ := cmd.CombinedOutput()
+	text := string(out)
+	var keep []string
+	for _, l := range strings.Split(text, "\n") {
+		if strings.Contains(l, "REPLAY-") || strings.HasPrefix(l, "--- ") || strings.HasPrefix(l, "FAIL") || strings.HasPrefix(l, "ok ") || strings.Contains(l, ".go:") {
+			keep = append(keep, l)
+		}
+	}
+	if len(keep) > 12 {
+		keep = keep[:12]
+	}
+	return strings.Contains(text, "REPLAY-CONFIRMED"), strings.Join(keep, "\n")
+}
+
+// runReplayTest (vq replay <record>): re-runs the test stored in a replay record.
+func runReplayTest(pkgDir, src string) (bool, string) {
+	repo := "/repo"
+	if d := os.Getenv("VQ_REPO"); d != "" {
+		repo = d
+	}
+	return runReplayTestIn(repo, pkgDir, src)
+}
+
+var _ = ssa.Function{}
